@@ -872,6 +872,39 @@ static void cfg_init_defaults(cfg_t *cfg)
 	}
 }
 
+/* A new, still empty instance of the section option opt; NULL (and nothing
+ * left allocated) if any of the allocations fails */
+static cfg_t *cfg_new_section(cfg_t *cfg, cfg_opt_t *opt, const char *title)
+{
+	cfg_t *sec;
+
+	sec = calloc(1, sizeof(cfg_t));
+	if (!sec)
+		return NULL;
+
+	sec->name = strdup(opt->name);
+	sec->filename = cfg->filename ? strdup(cfg->filename) : NULL;
+	sec->title = title ? strdup(title) : NULL;
+	if (sec->name && (sec->filename || !cfg->filename) && (sec->title || !title))
+		sec->opts = cfg_dupopt_array(opt->subopts);
+
+	if (!sec->opts) {
+		free(sec->title);
+		free(sec->filename);
+		free(sec->name);
+		free(sec);
+		return NULL;
+	}
+
+	sec->flags = cfg->flags;
+	if (is_set(CFGF_KEYSTRVAL, opt->flags))
+		sec->flags |= CFGF_KEYSTRVAL;
+	sec->line = cfg->line;
+	sec->errfunc = cfg->errfunc;
+
+	return sec;
+}
+
 /* strtol() on its own also takes leading white space, a sign after the
  * radix prefix and, in base 16, a second "0x": is s nothing but digits? */
 static int cfg_digits_ok(const char *s, int radix)
@@ -1121,51 +1154,23 @@ DLLIMPORT cfg_value_t *cfg_setopt(cfg_t *cfg, cfg_opt_t *opt, const char *value)
 
 	case CFGT_SEC:
 		if (is_set(CFGF_MULTI, opt->flags) || val->section == NULL) {
+			cfg_t *sec = cfg_new_section(cfg, opt, value);
+
+			if (!sec) {
+				/* Keep what was there.  A cell added for this very
+				 * call (always the last one) goes away again. */
+				if (!val->section) {
+					opt->nvalues--;
+					free(val);
+				}
+				return NULL;
+			}
+
 			if (val->section) {
 				val->section->path = NULL; /* Global search path */
 				cfg_free(val->section);
 			}
-			val->section = calloc(1, sizeof(cfg_t));
-			if (!val->section)
-				return NULL;
-
-			val->section->name = strdup(opt->name);
-			if (!val->section->name) {
-				free(val->section);
-				return NULL;
-			}
-
-			val->section->flags = cfg->flags;
-			if (is_set(CFGF_KEYSTRVAL, opt->flags))
-				val->section->flags |= CFGF_KEYSTRVAL;
-
-			val->section->filename = cfg->filename ? strdup(cfg->filename) : NULL;
-			if (cfg->filename && !val->section->filename) {
-				free(val->section->name);
-				free(val->section);
-				return NULL;
-			}
-
-			val->section->line = cfg->line;
-			val->section->errfunc = cfg->errfunc;
-			val->section->title = value ? strdup(value) : NULL;
-			if (value && !val->section->title) {
-				free(val->section->filename);
-				free(val->section->name);
-				free(val->section);
-				return NULL;
-			}
-
-			val->section->opts = cfg_dupopt_array(opt->subopts);
-			if (!val->section->opts) {
-				if (val->section->title)
-					free(val->section->title);
-				if (val->section->filename)
-					free(val->section->filename);
-				free(val->section->name);
-				free(val->section);
-				return NULL;
-			}
+			val->section = sec;
 		}
 		if (!is_set(CFGF_DEFINIT, opt->flags))
 			cfg_init_defaults(val->section);
